@@ -54,6 +54,7 @@ type Request struct {
 	ContentType string            `json:"content_type"`
 	Headers     map[string]string `json:"headers,omitempty"`
 	Body        []byte            `json:"body"`
+	HalfClose   bool              `json:"half_close,omitempty"` // the client shuts its sending side once the request is out (HTTP/1.0-style clients, some proxies)
 	Expect      []ExpRow          `json:"expect,omitempty"`
 	Streams     int               `json:"streams"`
 	MultiChunk  bool              `json:"multi_chunk"`
@@ -110,6 +111,7 @@ type LogOpts struct {
 	TTLLabel   bool // a third of the streams carry the reserved label __ttl_days__ (stripped by the writer, sets the row TTL)
 	Huge       bool // every stream is more than 1 MiB: the parser hands the body over in one portion per stream
 	LabelPool  []string
+	FarStream  bool // the second stream's entries lie in the year 2255 (legal; beyond what a ClickHouse Date holds)
 	Exact      int  // > 0: the first stream has exactly this many entries (threshold boundaries)
 	Pad        int  // every line is padded by this many bytes
 	Unordered  bool // half of the streams push their entries out of time order (legal: the store orders by timestamp)
@@ -178,7 +180,11 @@ func NewLogCase(r *rand.Rand, o LogOpts) LogCase {
 		for e := 0; e < ne; e++ {
 			en := Entry{}
 			// timestamps: unique per (stream, entry) at the protocol's granularity, some shared across streams
-			en.TsNs = (o.BaseNs/cp.tsUnit + int64(e)*7 + int64(r.Intn(5))) * cp.tsUnit
+			base := o.BaseNs
+			if o.FarStream && s == 1 {
+				base = 9000000000000000000
+			}
+			en.TsNs = (base/cp.tsUnit + int64(e)*7 + int64(r.Intn(5))) * cp.tsUnit
 			if e > 0 && en.TsNs <= st.Entries[e-1].TsNs {
 				en.TsNs = st.Entries[e-1].TsNs + cp.tsUnit
 			}
